@@ -5,6 +5,7 @@ import (
 	"context"
 	"encoding/json"
 	"fmt"
+	"io"
 	"mime/multipart"
 	"net/http"
 	"net/http/httptest"
@@ -31,6 +32,7 @@ type c06Case struct {
 	V         any      `json:"v"`
 	ExcludeRO bool     `json:"excludeRO"`
 	Enc       string   `json:"enc"`
+	Clen      string   `json:"clen"`
 }
 
 func renderMT(m any) string {
@@ -74,7 +76,7 @@ func c06Run(c *Case) []any {
 		}
 		ct = tc.HdrText
 	} else {
-		props := map[string]any{"l": map[string]any{"type": "array", "items": intS}, "n": intS,
+		props := map[string]any{"l": map[string]any{"type": "array", "items": intS}, "ls": map[string]any{"type": "array", "items": map[string]any{"type": "string"}}, "n": intS,
 			"ro": map[string]any{"type": "string", "readOnly": true}, "s": map[string]any{"type": "string"}}
 		req := []any{"ro"}
 		if tc.Schema == "S1" {
@@ -171,6 +173,12 @@ func c06Run(c *Case) []any {
 		}
 		if ct != "" {
 			r.Header.Set("Content-Type", ct)
+		}
+		if tc.Clen == "unknown" && body != nil {
+			// what net/http gives a handler-built / proxied request whose body is a pipe or a MultiReader
+			r.Body = io.NopCloser(io.MultiReader(bytes.NewReader(body)))
+			r.ContentLength = 0
+			r.GetBody = nil
 		}
 		return r
 	}
